@@ -27,6 +27,15 @@ func NewEvaluator(params bgv.Parameters, eval *bgv.Evaluator) *Evaluator {
 	}
 }
 
+// levelsConsumedPerRescaling returns 1, and 0 for a scale-invariant (BFV-style) evaluator, whose
+// multiplications and (no-op) rescalings consume no level: any input level is then enough.
+func (eval Evaluator) levelsConsumedPerRescaling() int {
+	if eval.InvariantTensoring {
+		return 0
+	}
+	return 1
+}
+
 // Evaluate evaluates a polynomial on the input Ciphertext in ceil(log2(deg+1)) levels.
 // Returns an error if the input ciphertext does not have enough level to carry out the full polynomial evaluation.
 // Returns an error if something is wrong with the scale.
@@ -47,7 +56,7 @@ func (eval Evaluator) Evaluate(ct *rlwe.Ciphertext, p interface{}, targetScale r
 		phe = p
 	}
 
-	return eval.Evaluator.Evaluate(ct, phe, targetScale, 1, &simEvaluator{eval.Parameters, eval.InvariantTensoring})
+	return eval.Evaluator.Evaluate(ct, phe, targetScale, eval.levelsConsumedPerRescaling(), &simEvaluator{eval.Parameters, eval.InvariantTensoring})
 }
 
 // EvaluateFromPowerBasis evaluates a polynomial using the provided [polynomial.PowerBasis], holding pre-computed powers of X.
@@ -69,7 +78,7 @@ func (eval Evaluator) EvaluateFromPowerBasis(pb polynomial.PowerBasis, p interfa
 		return nil, fmt.Errorf("cannot EvaluateFromPowerBasis: X^{1} is nil")
 	}
 
-	return eval.Evaluator.Evaluate(pb, phe, targetScale, 1, &simEvaluator{eval.Parameters, eval.InvariantTensoring})
+	return eval.Evaluator.Evaluate(pb, phe, targetScale, eval.levelsConsumedPerRescaling(), &simEvaluator{eval.Parameters, eval.InvariantTensoring})
 }
 
 // CoefficientGetter is a struct that implements the
